@@ -158,7 +158,11 @@ def run(ctx):
                        "with up to 300 constants (offsets depend on fields only)"]
     deep = "Offsets_deep_quick.cfg" if ctx.tier == "quick" else "Offsets_deep_thorough.cfg"
     c02.run_cfg(ctx, "Layout", "Offsets_flat.cfg", worker, "oflat")
-    c02.run_cfg(ctx, "Layout", deep, worker, "odeep")
+    # (three nesting steps give 1.5 * 10^6 types; every fifth is materialised in the thorough tier)
+    c02.run_cfg(ctx, "Layout", deep, worker, "odeep",
+                mk=lambda blocks: [(b, ctx.seed) for b in blocks if ctx.tier == "quick" or core.sampled(b, 5)])
+    if ctx.tier != "quick":
+        ctx.exhaustive = False
     many = [(nv, nc, un) for nv in (2, 3, 200, 256) for nc in (0, 1, 100, 300) for un in (True, False)]
     c02.consume(ctx, core.pmap(many_attr_worker, many, chunksize=2), "many")
     ctx.sample({"type": "@union uint8[<=2] f1; ns.Comp f2", "bases": [sorted(b) for b in BASES]})
